@@ -1,7 +1,7 @@
 (* Executable entry point of the C07 model: DFT-domain operations observed in the coefficient domain.
    header: be n | rcols rsize rcol | acols asize acol | bcols bsize bcol | extra...
    output: [selected column, limb-major ; flags 1 1 1] *)
-From PV Require Import Base.MachineInt Model.Znx Model.Limbs Model.Flat Model.Ring Model.DftAbs Model.C07Ntt120.
+From PV Require Import Base.MachineInt Model.Znx Model.Limbs Model.Flat Model.Ring Model.DftAbs Model.C07Ntt120 Model.C07NttNet.
 Open Scope Z_scope.
 
 Definition p (ps : list Z) (i : nat) : Z := nth i ps 0.
@@ -42,7 +42,7 @@ Definition run_c07 (code : Z) (ps : list Z) (vs : list (list Z)) : option (list 
       let f := vmp n rcols rsz acols asz rows msize lo aflat mflat in
       (* output: every column, column-major then limb *)
       Some [concat (map (fun co => concat (map (fun j => f (j * rcols + co)%nat) (seq 0 rsz))) (seq 0 rcols)); okflags]
-  | _ => run_c07_ntt code ps vs
+  | _ => if 7200 <=? code then run_c07_net code ps vs else run_c07_ntt code ps vs
   end.
 
 (* oracle.  C07's statement is "the coefficient-domain result equals the exact integer product / selection,
@@ -62,6 +62,7 @@ Fixpoint eqzll (a b : list (list Z)) : bool :=
   end.
 
 Definition oracle_c07 (code : Z) (ps : list Z) (vs outs : list (list Z)) : Z :=
+  if 7200 <=? code then oracle_c07_net code ps vs outs else
   if 7100 <=? code then oracle_c07_ntt code ps vs outs else
   match run_c07 code ps vs with
   | Some expect => if eqzll expect outs then 1 else 0
